@@ -45,7 +45,7 @@ impl BytesSerializable for PurgeTopic {
     }
 
     fn from_bytes(bytes: Bytes) -> Result<PurgeTopic, IggyError> {
-        if bytes.len() < 10 {
+        if bytes.len() < 6 {
             return Err(IggyError::InvalidCommand);
         }
 
